@@ -56,7 +56,8 @@ def floors(tier):
     return {"runs": 400 * k, "decided:resumes": 300 * k, "decided:warm_starts": 150 * k, "decided:deletes_before_end": 500 * k,
             "early_removals": 100 * k, "runs:delete_checkpoints": 200 * k, "runs:no_delete": 80 * k,
             "decided:sync_paused_deletes": 50 * k, "runs:early_removal_requested": 60 * k,
-            "decided:pbt_clone_source_choices": 100 * k, "runs:nan_reporting_trials": 25 * k, "decided:resumes_of_nan_trials": 10 * k}
+            "decided:pbt_clone_source_choices": 100 * k, "runs:pbt_with_jobs_ending_by_themselves": 40 * k,
+            "decided:warm_starts_from_completed_trial": 5 * k, "decided:warm_starts_from_failed_trial": 5 * k, "runs:nan_reporting_trials": 25 * k, "decided:resumes_of_nan_trials": 10 * k}
 
 
 def expand(spec):
@@ -72,6 +73,15 @@ def expand(spec):
          "space": gen.small_space(rng, ensure_infinite=True, ordinal_kinds=("equal",)), "curves": rng.choice(["continuous", "crossing"])}
     if simrun.pause_capable(kind) and not use_mra:
         p["plan"]["burst"] = 1
+    if kind == "pbt" and rng.random() < 0.6:
+        # members of the population whose job ends by itself (script shorter than max_t) or fails after some reports:
+        # the scheduler has not stopped them, so they stay candidates for cloning
+        for _ in range(rng.randint(1, 4)):
+            key = f"{rng.randint(0, 8)}:0"
+            if rng.random() < 0.5:
+                p["plan"].setdefault("short", {})[key] = rng.randint(1, max(1, max_t - 1))
+            else:
+                p["plan"].setdefault("fail", {})[key] = rng.randint(1, max(1, max_t - 1))
     p["nan_frac"] = rng.choice([0.5, 0.7, 0.85]) if kind == "sync_hb" and rng.random() < 0.4 else 0
     p["early"] = None
     if kind.startswith("hb_") and p["delete_checkpoints"] and rng.random() < 0.45:
@@ -139,6 +149,8 @@ def run_case(spec):
                         break
             o.violate("run_completes", f"{kind}:tuner_run_raised:{type(r.exc).__name__}{tag}", {"error": msg})
     o.count("runs:delete_checkpoints" if p["delete_checkpoints"] else "runs:no_delete")
+    if kind == "pbt" and (p["plan"].get("short") or p["plan"].get("fail")):
+        o.count("runs:pbt_with_jobs_ending_by_themselves")
     events = r.rec.events
     speculative = p["early"] is not None
     has_ck, ever_ck = {}, set()
@@ -196,6 +208,8 @@ def run_case(spec):
             o.count("decided:warm_starts")
             n_warm += 1
             sig.append(("copy", state.get(src)))
+            if state.get(src) in ("completed", "failed"):
+                o.count(f"decided:warm_starts_from_{state.get(src)}_trial")
             if src in ever_ck and not has_ck.get(src, False):
                 if popped is not None and popped[0] == src and popped[1] is False:
                     V("checkpoint_exists_at_warm_start", "clone_source_chosen_after_its_checkpoint_was_deleted", src=src, tgt=tgt, src_state=state.get(src))
